@@ -126,6 +126,8 @@ def trace_run_configs(ctx):
         # excited-state searches (orthogonal_to): the environments <psi|psi0> are traced as well
         combos = list(itertools.product((1, 2), ('none', 'sub', 'dm'), (False, True)))
         rng.shuffle(combos)
+        first = [c for c in combos if c[0] == 1 and c[1] == 'none'][:1] + [c for c in combos if c[0] == 1 and c[1] != 'none'][:1]
+        combos = first + [c for c in combos if c not in first]
         for n, mix, combine in (combos[:4] if quick else combos):
             out.append(dict(n=n, bc='finite', mix=mix, combine=combine, L=rng.choice([4, 5, 6]), model=rng.choice(['tfi', 'xxz']),
                             chi=rng.choice([4, 8, 16]), sweeps=rng.choice([2, 3]), check=1, ext=0.0, start_env=1,
@@ -817,6 +819,22 @@ def excited_case(ctx, inst, xcfg, psi0, M, s1, origin):
     ctx.case(key + ('X4',), action='Excited.X4')
     if not EH > E0 + tol:
         fail('X4-not-above-ground-state', expectation=EH)
+    # X5 the engine can be run further (one more sweep) and stays orthogonal to the ground state
+    ctx.case(key + ('X5',), action='Excited.X5')
+    try:
+        with warnings.catch_warnings():
+            warnings.simplefilter('ignore')
+            eng.options['max_sweeps'] = eng.sweeps + 1
+            eng.run()
+        amp = dense_amplitudes(psi)
+        ov = sum(complex(a, -b) * amp.get(s, 0.0) for s, (a, b) in zip(inst['basis'], inst['vc']))
+        if not abs(ov) ** 2 <= 1e-12 * vv:
+            fail('X5-second-run-not-orthogonal', overlap2=abs(ov) ** 2 / vv)
+    except core.MachineryError:
+        raise
+    except Exception as e:
+        ok = False
+        ctx.violation(dict(sig0, clause='X5-exception-second-run', exc=type(e).__name__), dict(detail0, message=str(e)[:300]))
     return ok
 
 
@@ -862,6 +880,31 @@ def stage_excited(ctx, insts, rng):
             nrun += 1
             if excited_case(ctx, inst, xcfg, psi0, M, s1, 'exc%d' % j):
                 nok += 1
+        # X5 on a run that is stopped early with the mixer still enabled (its clean-up changes the tensors of psi)
+        xcfg = (2 - (j + ctx.seed) % 2, 'dm' if j % 2 == 0 else 'sub', 'lanczos', True)
+        sig = dict(kind='replay', spec='Solvable', fam=inst['fam'] + '-excited', engine='TwoSite' if xcfg[0] == 2 else 'SingleSite',
+                   mix=xcfg[1], diag='lanczos', combine=True, complex_H=True)
+        s1 = product_states(inst, rng, 1)[0]
+        psi = MPS.from_product_state(M.lat.mps_sites(), ['up' if (s1 >> i) & 1 else 'down' for i in range(L)], bc='finite')
+        ctx.case(('exc-short', inst['fam'], L, inst['nup'], inst['var'], inst['twk'], xcfg, s1), action='Excited.X5')
+        nrun += 1
+        try:
+            with warnings.catch_warnings():
+                warnings.simplefilter('ignore')
+                cls = dmrg.TwoSiteDMRGEngine if xcfg[0] == 2 else dmrg.SingleSiteDMRGEngine
+                eng = cls(psi, M, dict(mixer=MIXERS[xcfg[1]], combine=True, max_sweeps=2, N_sweeps_check=1, diag_method='lanczos',
+                                       max_trunc_err=None, trunc_params=dict(chi_max=2 ** (L // 2) + 4, svd_min=1e-12)),
+                          orthogonal_to=[psi0])
+                eng.run()
+                eng.options['max_sweeps'] = eng.sweeps + 1
+                eng.run()
+            nok += 1
+        except core.MachineryError:
+            raise
+        except Exception as e:
+            ctx.violation(dict(sig, clause='X5-exception-second-run', exc=type(e).__name__),
+                          dict(instance=tlaval.to_jsonable({k: inst[k] for k in ('fam', 'L', 'nup', 'var', 'twk')}), engine_cfg=list(xcfg),
+                               start=s1, message=str(e)[:300]))
     ctx.trace_ok(nok)
     ctx.notes['excited_runs'] = nrun
 
